@@ -10,6 +10,7 @@ import DiskfsModel.Model.Fat.FlatFs
 import DiskfsModel.Generated.Fat
 import DiskfsModel.Model.Fat.Boot
 import DiskfsModel.Spec.FatBoot
+import Driver.FatTree
 namespace Driver.Fat
 open Diskfs Diskfs.Fat Driver
 
@@ -314,4 +315,6 @@ def main : IO Unit := Driver.runLoop fun op args =>
   | "fat.spec" => Driver.Fat.specOp args
   | "fat.bootcheck" => Driver.Fat.bootcheckOp args
   | "fat.bootenc" => Driver.Fat.bootencOp args
+  | "fat.tree" => Driver.FatTree.treeOp args
+  | "fat.dirwrs" => Driver.FatTree.dirwrsOp args
   | _ => "unknown-op"
